@@ -619,9 +619,20 @@ end module bm
 BOUND_NAMES = ["tb_default", "tb_pass", "tb_pass_spaced", "tb_pass_upper", "tb_nopass", "tb_short_upper", "tb_keyword_part"]
 
 
-def bound_case(name, acc: Acc):
+BOUND_IMPL = {"tb_default": ("bimpl_first", ["me", "x", "y"]), "tb_pass": ("bimpl_mid", ["x", "me", "y"]), "tb_pass_spaced": ("bimpl_mid", ["x", "me", "y"]),
+              "tb_pass_upper": ("bimpl_last", ["x", "y", "me"]), "tb_nopass": ("bimpl_none", ["x", "y"]), "tb_short_upper": ("S", ["me", "x", "y"]),
+              "tb_keyword_part": ("UB", ["me", "x", "y"])}
+
+
+def bound_case(job, acc: Acc):
+    """job = (binding, order): the call through the binding and the direct call of its implementation are asked in one
+    server session in both orders (what is remembered from the first answer must not leak into the second)."""
+    name, order = job
+    impl, dummies = BOUND_IMPL[name]
+    actual = {"me": "ob", "x": "11", "y": "22"}
     call = f"  call ob%{name}(11, 22)"
-    text = BOUND_LIB + "program bp\n  use bm\n  implicit none\n  type(bt) :: ob\n" + call + "\nend program bp\n"
+    direct = f"  call {impl}(" + ", ".join(actual[d] for d in dummies) + ")"
+    text = BOUND_LIB + "program bp\n  use bm\n  implicit none\n  type(bt) :: ob\n" + call + "\n" + direct + "\nend program bp\n"
     sc = worker_scratch("c11")
     sc.wipe()
     root = os.path.realpath(sc.path)
@@ -630,29 +641,40 @@ def bound_case(name, acc: Acc):
         f.write(text)
     s = Server([])
     s.initialize(root)
-    ln = text.split("\n").index(call)
-    for col, idx in ((call.index("11") + 1, 0), (call.index("22") + 1, 1)):
-        r = s.result("textDocument/signatureHelp", Server.tdpp(path, ln, col))
-        acc.case(nontrivial_key=(name, idx), outcome=(name, idx))
-        tags0 = {"family": "bound_signature", "binding": name}
-        cs = {"binding": name, "character": col, "text": text, "line": ln}
-        if not (isinstance(r, dict) and r.get("signatures")):
-            acc.violation(Violation("bound_signature", {**tags0, "obs": "no_signature"}, cs, (name, ["x", "y"], idx), r, what=f"{call.strip()!r} col {col}: no signature"))
-            continue
-        sig = r["signatures"][0]
-        params = [p["label"].split("=")[0].lower() for p in sig.get("parameters", [])]
-        if not sig["label"].lower().startswith(name) or params != ["x", "y"]:
-            acc.violation(Violation("bound_signature", {**tags0, "obs": "wrong_signature"}, cs, (name, ["x", "y"]), (sig["label"], params),
-                                    what=f"{call.strip()!r}: expected {name}(x, y), got {sig['label']}"))
-        elif r.get("activeParameter") != idx:
-            acc.violation(Violation("bound_signature", {**tags0, "obs": "active_parameter"}, cs, idx, r.get("activeParameter"),
-                                    what=f"{call.strip()!r} col {col}: active parameter {r.get('activeParameter')}, expected {idx}"))
+    lines = text.split("\n")
+    tags0 = {"family": "bound_signature", "binding": name, "order": order}
+
+    def ask(kind):
+        stmt, label, want = (call, name, ["x", "y"]) if kind == "bound" else (direct, impl.lower(), dummies)
+        ln = lines.index(stmt)
+        for lit in ("11", "22"):
+            col = stmt.index(lit) + 1
+            idx = want.index("x" if lit == "11" else "y")
+            r = s.result("textDocument/signatureHelp", Server.tdpp(path, ln, col))
+            acc.case(nontrivial_key=(name, order, kind, idx), outcome=(name, kind, idx))
+            cs = {"binding": name, "order": order, "character": col, "text": text, "line": ln}
+            if not (isinstance(r, dict) and r.get("signatures")):
+                acc.violation(Violation("bound_signature", {**tags0, "call": kind, "obs": "no_signature"}, cs, (label, want, idx), r,
+                                        what=f"{stmt.strip()!r} col {col} ({order}): no signature"))
+                continue
+            sig = r["signatures"][0]
+            params = [p["label"].split("=")[0].lower() for p in sig.get("parameters", [])]
+            if not sig["label"].lower().startswith(label) or params != want:
+                acc.violation(Violation("bound_signature", {**tags0, "call": kind, "obs": "wrong_signature"}, cs, (label, want), (sig["label"], params),
+                                        what=f"{stmt.strip()!r} ({order}): expected {label}({', '.join(want)}), got {sig['label']} with parameters {params}"))
+            elif r.get("activeParameter") != idx:
+                acc.violation(Violation("bound_signature", {**tags0, "call": kind, "obs": "active_parameter"}, cs, idx, r.get("activeParameter"),
+                                        what=f"{stmt.strip()!r} col {col} ({order}): active parameter {r.get('activeParameter')}, expected {idx}"))
+
+    for kind in (("bound", "direct") if order == "bound_first" else ("direct", "bound")):
+        ask(kind)
+    ln = lines.index(call)
     h = s.result("textDocument/hover", Server.tdpp(path, ln, call.index(name) + 2))
     code = (h or {}).get("contents", {}).get("value", "").split("\n")
     first = norm(code[1]) if len(code) > 1 else ""
     if first != norm(f"SUBROUTINE {name}(x, y)"):
         acc.violation(Violation("bound_signature", {"family": "bound_signature", "binding": name, "obs": "hover_signature_line"},
-                                {"binding": name, "text": text, "line": ln}, f"SUBROUTINE {name}(x, y)", code[:2], what=f"hover of ob%{name}: {code[1:2]}"))
+                                {"binding": name, "order": order, "text": text, "line": ln}, f"SUBROUTINE {name}(x, y)", code[:2], what=f"hover of ob%{name}: {code[1:2]}"))
 
 
 def _in_plain_paren(line, col):
@@ -690,8 +712,8 @@ def main(ctx):
     ctx.add_family("procedures", pacc)
     sacc = core.pmap(sig_case, CALLS, chunk=1, budget_s=120, label="C11/sig")
     ctx.add_family("signature", sacc)
-    tacc = core.pmap(bound_case, BOUND_NAMES, chunk=1, budget_s=120, label="C11/bound")
-    ctx.add_family("bound_signature", tacc, what="calls through seven bindings (default pass, PASS(name) in three spellings and dummy positions, NOPASS, implementations named S and UB)")
+    tacc = core.pmap(bound_case, [(n, o) for n in BOUND_NAMES for o in ("bound_first", "direct_first")], chunk=1, budget_s=120, label="C11/bound")
+    ctx.add_family("bound_signature", tacc, what="calls through seven bindings (default pass, PASS(name) in three spellings and dummy positions, NOPASS, implementations named S and UB) and the direct call of the implementation, in one session, in both orders")
 
 
 def replay(rec):
@@ -700,7 +722,7 @@ def replay(rec):
     if rec["family"] == "declarations":
         decl_case(eval(c["case"]), acc)
     elif rec["family"] == "bound_signature":
-        bound_case(c["binding"], acc)
+        bound_case((c["binding"], c.get("order", "bound_first")), acc)
     elif rec["family"] == "siblings":
         sibling_case(eval(c["case"]), acc)
         acc.violations = [v for v in acc.violations if v.case["entity"] == c["entity"]]
